@@ -33,7 +33,7 @@ def stepLine (s : DState) (line : String) : DState × String :=
   match sessionStep s ws with
   | some r => r
   | none =>
-    match builderStep s ws with
+    match (match wbuildStep s ws with | some r => some r | none => builderStep s ws) with
     | some r => r
     | none =>
       match internStep s ws with
